@@ -490,6 +490,37 @@ func FCapture2(limit int) (limit2 string) {
 
 func FCaptureAll() string { return FCapture() + FCapture2(4) }
 `, "FCaptureAll"},
+		{"type-switch-variable-named-like-import-or-package-level-name", `
+func FTypeSwitchVar(v interface{}) string {
+	switch cfg := v.(type) {
+	case int:
+		return "int" + itoa(cfg) + itoa(acfg.Default)
+	case string:
+		return "string" + cfg
+	case nil:
+		return "nil"
+	default:
+		_ = cfg
+		return "other"
+	}
+}
+
+func FTypeSwitchVar2(v interface{}) string {
+	limit2 := "keep"
+	switch limit := v.(type) {
+	case int, int64:
+		_ = limit
+		return "ints" + limit2
+	case string:
+		return limit + limit2
+	}
+	return "none"
+}
+
+func FTypeSwitchAll() string {
+	return FTypeSwitchVar(3) + FTypeSwitchVar("s") + FTypeSwitchVar(nil) + FTypeSwitchVar(2.5) + FTypeSwitchVar2(1) + FTypeSwitchVar2("x") + FTypeSwitchVar2(1.5)
+}
+`, "FTypeSwitchAll"},
 		{"method-named-like-the-injector", `
 func (t Thing) InitThing() string { return "method" + itoa(t.A) }
 
